@@ -1,0 +1,40 @@
+//! Verification hook (only compiled with `--cfg slotted_egraphs_verif`): a thin public wrapper
+//! around the crate-private permutation group, without any logic of its own.
+use crate::*;
+
+pub struct VerifGroup(Group<Perm>);
+
+impl VerifGroup {
+    pub fn new(omega: &SmallHashSet<Slot>, generators: Vec<SlotMap>) -> Self {
+        let identity = Perm::identity(omega);
+        VerifGroup(Group::new(&identity, generators.into_iter().collect()))
+    }
+
+    pub fn is_trivial(&self) -> bool {
+        self.0.is_trivial()
+    }
+
+    pub fn contains(&self, p: &SlotMap) -> bool {
+        self.0.contains(p)
+    }
+
+    pub fn all_perms(&self) -> Vec<SlotMap> {
+        self.0.all_perms()
+    }
+
+    pub fn count(&self) -> usize {
+        self.0.count()
+    }
+
+    pub fn orbit(&self, s: Slot) -> SmallHashSet<Slot> {
+        self.0.orbit(s)
+    }
+
+    pub fn generators(&self) -> Vec<SlotMap> {
+        self.0.generators().into_iter().collect()
+    }
+
+    pub fn add_set(&mut self, perms: Vec<SlotMap>) -> bool {
+        self.0.add_set(perms.into_iter().collect())
+    }
+}
